@@ -631,8 +631,8 @@ Fixpoint ref_more (more : list (lay * kvcore)) (pre : list N) : option (list N *
       match k_val k with
       | Some (le, v, lv) =>
           if text_eqb (key_span_text k) (p_ref_key TP)
-          then Some ((pre1 ++ render_ident (k_key k) ++ render_lay (k_l1 k) ++ 61 :: render_lay le)%list,
-                     (render_value v ++ render_lay lv)%list)
+          then Some ((pre1 ++ render_ident (k_key k) ++ render_lay (k_l1 k) ++ render_mod (k_mod k) ++ 61 :: render_lay le)%list,
+                     value_span v lv)
           else ref_more r (pre1 ++ render_core k)
       | None => ref_more r (pre1 ++ render_core k)
       end
@@ -645,12 +645,12 @@ Proof.
   - replace (blen pre + cplen (i0 (k_key k)) + blen (render_lay (k_l1 k)))
       with (blen pre + blen ([i0 (k_key k)] ++ render_lay (k_l1 k))) by (rewrite blen_app; cbn [blen]; lia).
     rewrite <- (str_slice_mid pre ([i0 (k_key k)] ++ render_lay (k_l1 k))
-                  ((render_val (k_val k) ++ render_comma (k_comma k)) ++ rest)).
+                  ((render_mod (k_mod k) ++ render_val (k_val k) ++ render_comma (k_comma k)) ++ rest)).
     f_equal. cbn [app]. rewrite <- !app_assoc. reflexivity.
   - rewrite app_nil_r.
     replace (blen pre + cplen (i0 (k_key k)) + blen (c :: cs)) with (blen pre + blen (i0 (k_key k) :: c :: cs)) by (cbn [blen]; lia).
     rewrite <- (str_slice_mid pre (i0 (k_key k) :: c :: cs)
-                  ((render_lay (k_l1 k) ++ render_val (k_val k) ++ render_comma (k_comma k)) ++ rest)).
+                  ((render_lay (k_l1 k) ++ render_mod (k_mod k) ++ render_val (k_val k) ++ render_comma (k_comma k)) ++ rest)).
     f_equal. cbn [app]. rewrite <- !app_assoc. reflexivity.
 Qed.
 
@@ -680,11 +680,16 @@ Proof.
     destruct IH as (res & IH1 & IH2).
     destruct (k_val k) as [[[le v] lv]|] eqn:Ev.
     + destruct (text_eqb (key_span_text k) (p_ref_key TP)); [|exists res; split; assumption].
-      eexists. split; [reflexivity|]. cbn [ref_rel node_start node_end]. split; [|split].
-      * repeat (rewrite blen_app || (progress cbn [blen])). cbn [cplen N.ltb N.compare Pos.compare Pos.compare_cont]. lia.
-      * unfold value_end. repeat (rewrite blen_app || (progress cbn [blen])). cbn [cplen N.ltb N.compare Pos.compare Pos.compare_cont]. lia.
-      * eexists. rewrite Hcode1. unfold render_core. rewrite Ev. cbn [render_val]. rewrite <- !app_assoc. cbn [app].
-        rewrite <- !app_assoc. reflexivity.
+      eexists. split; [reflexivity|]. cbn [ref_rel node_start node_end].
+      assert (Hstart : blen (pre ++ render_lay ld) + blen (render_ident (k_key k)) + blen (render_lay (k_l1 k)) +
+                       blen (render_mod (k_mod k)) + 1 + blen (render_lay le)
+                       = blen ((pre ++ render_lay ld) ++ render_ident (k_key k) ++ render_lay (k_l1 k) ++
+                               render_mod (k_mod k) ++ 61 :: render_lay le)%list).
+      { repeat (rewrite blen_app || (progress cbn [blen])). cbn [cplen N.ltb N.compare Pos.compare Pos.compare_cont]. lia. }
+      split; [exact Hstart|split].
+      * unfold value_end. rewrite Hstart. reflexivity.
+      * rewrite Hcode1. unfold render_core. rewrite Ev. cbn [render_val]. unfold value_span.
+        destruct (v_tl v); eexists; rewrite <- !app_assoc; cbn [app]; rewrite <- !app_assoc; reflexivity.
     + destruct (text_eqb (key_span_text k) (p_ref_key TP)); exists res; split; assumption.
 Qed.
 
